@@ -211,7 +211,7 @@ def show(n, depth=0):
     if k == "assign":
         return "%s = %s" % (show(n["l"], d), show(n["r"], d))
     if k == "assignop":
-        return "%s %s= %s" % (show(n["l"], d), n["op"], show(n["r"], d))
+        return "%s %s %s" % (show(n["l"], d), n["op"] if n["op"].endswith("=") else n["op"] + "=", show(n["r"], d))
     if k == "return":
         return "return %s" % (show(n["e"], d) if "e" in n else "")
     if k == "break":
